@@ -204,6 +204,8 @@ func Run(seed uint64, index int64, o hx.Opts) *hx.Result {
 	en := [rt.NumKinds]bool{}
 	en[rt.KGap], en[rt.KSched] = true, true
 	cfg := rt.Config{Seed: seed, Replay: o.Replay, Verbose: o.Verbose, NPoints: o.NPoints, Bias: hx.Swarm(seed, en), MaxSteps: 400_000}
+	hx.PCTShare = 6 // the table's windows are a few statements wide: mostly random preemption, some priority runs
+	cfg.PCT = hx.SwarmPCT(seed)
 	w := rt.NewWorld(cfg)
 	w.NoSkip = true
 
